@@ -7,7 +7,7 @@ from hypothesis import strategies as st
 
 VMAX = 10000
 
-SERIES_CLASSES = ["seasonal", "walk", "iid", "constant", "linear", "step", "flat_spikes", "few_values", "extremes", "small"]
+SERIES_CLASSES = ["seasonal", "walk", "iid", "constant", "linear", "step", "flat_spikes", "few_values", "extremes", "small", "edge_outlier"]
 GAP_CLASSES = ["none", "isolated", "runs", "leading", "trailing", "lead_trail", "all_but_k", "alternating"]
 
 
@@ -63,6 +63,16 @@ def series(draw, nmin=4, nmax=200, classes=None, vmax=VMAX, n=None):
     elif cls == "few_values":
         vals = draw(st.lists(ints(-vmax, vmax), min_size=2, max_size=3, unique=True))
         y = draw(st.lists(st.sampled_from(vals), min_size=n, max_size=n))
+    elif cls == "edge_outlier":  # smooth base with a large residual at the first and/or the last step
+        base = draw(ints(-vmax // 3, vmax // 3))
+        amp = draw(ints(0, vmax // 6))
+        period = draw(st.floats(4.0, 60.0))
+        nz = draw(ints(0, 60))
+        noise = draw(st.lists(ints(-nz, nz), min_size=n, max_size=n))
+        y = [_clip(round(base + amp * math.sin(2 * math.pi * t / period)) + noise[t], -vmax, vmax) for t in range(n)]
+        where = draw(st.sampled_from(["first", "last", "last", "both"]))
+        for q in ([0] if where == "first" else [n - 1] if where == "last" else [0, n - 1]):
+            y[q] = _clip(y[q] + draw(st.sampled_from([-1, 1])) * draw(ints(vmax // 10, vmax // 2)), -vmax, vmax)
     elif cls == "small":  # values around zero: exact zeros and sign changes are frequent
         y = draw(st.lists(ints(-5, 5), min_size=n, max_size=n))
     else:  # extremes
